@@ -5,6 +5,7 @@ package main
 import (
 	"fmt"
 	"go/types"
+	"sort"
 	"strings"
 
 	"golang.org/x/tools/go/ssa"
@@ -46,6 +47,8 @@ var intrinsics = map[string]bool{
 	"sync/atomic.AddInt32": true, "sync/atomic.AddInt64": true, "sync/atomic.AddUint32": true, "sync/atomic.AddUint64": true,
 	"sync/atomic.SwapInt32": true, "sync/atomic.SwapInt64": true, "sync/atomic.SwapUint32": true, "sync/atomic.SwapUint64": true,
 	"sync/atomic.CompareAndSwapInt32": true, "sync/atomic.CompareAndSwapInt64": true, "sync/atomic.CompareAndSwapUint32": true, "sync/atomic.CompareAndSwapUint64": true,
+	"(*sync/atomic.Value).Load": true, "(*sync/atomic.Value).Store": true,
+	"(*sync.Map).Load": true, "(*sync.Map).Store": true, "(*sync.Map).Delete": true, "(*sync.Map).LoadOrStore": true, "(*sync.Map).LoadAndDelete": true,
 	"errors.New": true, "fmt.Errorf": true, "fmt.Sprintf": true, "fmt.Sprint": true,
 	"math.Ceil": true, "math.Floor": true, "math.Max": true, "math.Min": true, "math.Abs": true, "math.Round": true, "math.Trunc": true,
 }
@@ -122,16 +125,30 @@ func (fr *frame) classifyCall(cc *ssa.CallCommon) (int, *FuncContract, *ssa.Func
 }
 
 func inlinable(fn *ssa.Function) bool {
-	if len(fn.Blocks) > 12 {
+	if len(fn.Blocks) > 24 {
 		return false
 	}
 	n := 0
-	for _, b := range fn.Blocks {
+	// loops: DFS back edges
+	state := map[*ssa.BasicBlock]int{}
+	cyclic := false
+	var dfs func(b *ssa.BasicBlock)
+	dfs = func(b *ssa.BasicBlock) {
+		state[b] = 1
 		for _, s := range b.Succs {
-			if s.Index <= b.Index {
-				return false // loop
+			if state[s] == 1 {
+				cyclic = true
+			} else if state[s] == 0 {
+				dfs(s)
 			}
 		}
+		state[b] = 2
+	}
+	dfs(fn.Blocks[0])
+	if cyclic {
+		return false
+	}
+	for _, b := range fn.Blocks {
 		for _, in := range b.Instrs {
 			n++
 			switch in.(type) {
@@ -140,7 +157,7 @@ func inlinable(fn *ssa.Function) bool {
 			}
 		}
 	}
-	return n <= 80 && fn.Recover == nil
+	return n <= 120 && fn.Recover == nil
 }
 
 func (fr *frame) call(v *ssa.Call, cc *ssa.CallCommon, st *State, R string, b *ssa.BasicBlock) {
@@ -235,6 +252,57 @@ func pkgOfName(s string) string {
 	return s
 }
 
+func (fc *FnCtx) syncMapComps() (string, string) {
+	fc.compDecl("SM:V", "(Array Int (Array Int Int))")
+	fc.compDecl("SM:D", "(Array Int (Array Int Bool))")
+	return "SM:V", "SM:D"
+}
+
+func isSyncMap(T types.Type) bool {
+	n, ok := T.(*types.Named)
+	return ok && n.Obj().Pkg() != nil && n.Obj().Pkg().Path() == "sync" && n.Obj().Name() == "Map"
+}
+
+// resetSyncMaps: a zero sync.Map value is stored at address `at` (struct type T may contain sync.Map fields).
+func (fc *FnCtx) resetSyncMaps(st *State, T types.Type, at string) {
+	if isSyncMap(T) {
+		_, smd := fc.syncMapComps()
+		st.comp[smd] = fmt.Sprintf("(store %s %s ((as const (Array Int Bool)) false))", fc.lookup(st, smd), at)
+		return
+	}
+	if s, ok := T.Underlying().(*types.Struct); ok {
+		if n, isN := T.(*types.Named); isN && n.Obj().Pkg() != nil && (n.Obj().Pkg().Path() == "sync" || n.Obj().Pkg().Path() == "sync/atomic") {
+			return
+		}
+		for i := 0; i < s.NumFields(); i++ {
+			ft := s.Field(i).Type()
+			if isSyncMap(ft) {
+				fc.resetSyncMaps(st, ft, fc.fieldAddrTerm(fc.P.SortOf(T), i, at))
+			} else if _, isS := ft.Underlying().(*types.Struct); isS && containsSyncMap(ft, 0) {
+				fc.resetSyncMaps(st, ft, fc.fieldAddrTerm(fc.P.SortOf(T), i, at))
+			}
+		}
+	}
+}
+
+func containsSyncMap(T types.Type, depth int) bool {
+	if isSyncMap(T) {
+		return true
+	}
+	if depth > 3 {
+		return false
+	}
+	if s, ok := T.Underlying().(*types.Struct); ok {
+		for i := 0; i < s.NumFields(); i++ {
+			ft := s.Field(i).Type()
+			if _, isS := ft.Underlying().(*types.Struct); isS && containsSyncMap(ft, depth+1) {
+				return true
+			}
+		}
+	}
+	return false
+}
+
 func (fr *frame) resultAssume(v *ssa.Call, resName string, st *State) {
 	if v == nil {
 		return
@@ -248,9 +316,39 @@ func (fr *frame) resultAssume(v *ssa.Call, resName string, st *State) {
 	fr.loadedAssume(resName, v.Type(), st)
 }
 
+// havocAllKeepFresh: unknown effects cannot reach objects allocated in this frame that have not escaped yet.
+func (fr *frame) havocAllKeepFresh(st *State) {
+	fc := fr.fc
+	type keep struct{ key, ref, val string }
+	var keeps []keep
+	for al, ok := range fr.unescaped {
+		if !ok {
+			continue
+		}
+		a := fr.addrs[al]
+		if a == nil || a.kind != 2 {
+			continue
+		}
+		if s, isS := a.T.Underlying().(*types.Struct); isS {
+			for i := 0; i < s.NumFields(); i++ {
+				k, _ := fc.fieldComp(a.T, i)
+				keeps = append(keeps, keep{k, a.ref, fmt.Sprintf("(select %s %s)", fc.lookup(st, k), a.ref)})
+			}
+		} else {
+			k := fc.cellComp(a.T)
+			keeps = append(keeps, keep{k, a.ref, fmt.Sprintf("(select %s %s)", fc.lookup(st, k), a.ref)})
+		}
+	}
+	fc.havocAll(st)
+	sort.Slice(keeps, func(i, j int) bool { return keeps[i].key+keeps[i].ref < keeps[j].key+keeps[j].ref })
+	for _, k := range keeps {
+		st.comp[k.key] = fmt.Sprintf("(store %s %s %s)", fc.lookup(st, k.key), k.ref, k.val)
+	}
+}
+
 func (fr *frame) unknownCall(v *ssa.Call, resName string, cc *ssa.CallCommon, st *State) {
 	fc := fr.fc
-	fc.havocAll(st)
+	fr.havocAllKeepFresh(st)
 	// locals passed by address are havocked too
 	for _, a := range cc.Args {
 		if ad, ok := fr.addrs[a]; ok && ad.kind == 1 {
@@ -362,17 +460,48 @@ func (fr *frame) intrinsic(v *ssa.Call, res, name string, cc *ssa.CallCommon, st
 	case name == "strings.TrimRight", name == "strings.TrimLeft":
 		f := "sfn_" + mangle(name)
 		P.Declare(f, fmt.Sprintf("(declare-fun %s (String String) String)", f))
-		if name == "strings.TrimRight" {
-			// the result is a prefix of s; trimming one trailing occurrence of a single-character cutset is pinned exactly
-			P.Declare(f+"_ax", fmt.Sprintf("(assert (forall ((s String) (c String)) (! (and (str.prefixof (%s s c) s) (<= (str.len (%s s c)) (str.len s))) :pattern ((%s s c)))))", f, f, f))
-			P.Declare(f+"_ax2", fmt.Sprintf("(assert (forall ((s String) (c String)) (! (=> (and (= (str.len c) 1) (not (str.suffixof c s))) (= (%s s c) s)) :pattern ((%s s c)))))", f, f))
-			P.Declare(f+"_ax3", fmt.Sprintf("(assert (forall ((s String) (c String)) (! (=> (and (= (str.len c) 1) (str.suffixof c s)) (= (%s s c) (%s (str.substr s 0 (- (str.len s) 1)) c))) :pattern ((%s s c)))))", f, f, f))
-		}
 		def(fmt.Sprintf("(%s %s %s)", f, arg(0), arg(1)))
 	case name == "strings.Join", name == "strings.Split", name == "strings.EqualFold":
 		f := "sfn_" + mangle(name)
 		P.Declare(f, fmt.Sprintf("(declare-fun %s (%s %s) %s)", f, P.SortOf(cc.Args[0].Type()), P.SortOf(cc.Args[1].Type()), P.SortOf(v.Type())))
 		def(fmt.Sprintf("(%s %s %s)", f, arg(0), arg(1)))
+	case name == "(*sync/atomic.Value).Load", name == "(*sync/atomic.Value).Store":
+		a := fr.addrOf(cc.Args[0], st, R)
+		if a == nil {
+			fc.errf("atomic.Value op on unknown address")
+			return
+		}
+		na := *a
+		na.path = append(append([]pathEl{}, a.path...), pathEl{field: 0})
+		if strings.HasSuffix(name, "Load") {
+			t, _ := fc.load(st, &na)
+			def(t)
+		} else {
+			fc.store(st, &na, arg(1))
+		}
+	case strings.HasPrefix(name, "(*sync.Map)."):
+		smv, smd := fc.syncMapComps()
+		m := arg(0)
+		V, D := fc.lookup(st, smv), fc.lookup(st, smd)
+		switch strings.TrimPrefix(name, "(*sync.Map).") {
+		case "Load":
+			fc.fact("", "(= %s_r1 (select (select %s %s) %s))", res, D, m, arg(1))
+			fc.fact("", "(= %s_r0 (ite %s_r1 (select (select %s %s) %s) 0))", res, res, V, m, arg(1))
+		case "Store":
+			st.comp[smv] = fmt.Sprintf("(store %s %s (store (select %s %s) %s %s))", V, m, V, m, arg(1), arg(2))
+			st.comp[smd] = fmt.Sprintf("(store %s %s (store (select %s %s) %s true))", D, m, D, m, arg(1))
+		case "Delete":
+			st.comp[smd] = fmt.Sprintf("(store %s %s (store (select %s %s) %s false))", D, m, D, m, arg(1))
+		case "LoadOrStore":
+			fc.fact("", "(= %s_r1 (select (select %s %s) %s))", res, D, m, arg(1))
+			fc.fact("", "(= %s_r0 (ite %s_r1 (select (select %s %s) %s) %s))", res, res, V, m, arg(1), arg(2))
+			st.comp[smv] = fmt.Sprintf("(store %s %s (store (select %s %s) %s %s_r0))", V, m, V, m, arg(1), res)
+			st.comp[smd] = fmt.Sprintf("(store %s %s (store (select %s %s) %s true))", D, m, D, m, arg(1))
+		case "LoadAndDelete":
+			fc.fact("", "(= %s_r1 (select (select %s %s) %s))", res, D, m, arg(1))
+			fc.fact("", "(= %s_r0 (ite %s_r1 (select (select %s %s) %s) 0))", res, res, V, m, arg(1))
+			st.comp[smd] = fmt.Sprintf("(store %s %s (store (select %s %s) %s false))", D, m, D, m, arg(1))
+		}
 	case strings.HasPrefix(name, "(*sync."):
 		// locks are no-ops in the sequential model
 	case strings.HasPrefix(name, "sync/atomic."):
@@ -700,7 +829,19 @@ func (fr *frame) resolveModItem(env *Env, item string) []modTarget {
 			return nil
 		}
 		return []modTarget{{key: k, ref: x.T}}
+	case *ECall:
+		if e.Fun == "smap" && len(e.Args) == 1 {
+			smv, smd := fc.syncMapComps()
+			a := env.tr(e.Args[0])
+			return []modTarget{{key: smv, ref: a.T}, {key: smd, ref: a.T}}
+		}
 	case *EIndex:
+		if c, ok := e.X.(*ECall); ok && c.Fun == "smap" && len(c.Args) == 1 {
+			smv, smd := fc.syncMapComps()
+			a := env.tr(c.Args[0])
+			k := env.tr(e.I).T
+			return []modTarget{{key: smv, ref: a.T, mapKey: k}, {key: smd, ref: a.T, mapKey: k}}
+		}
 		// ghost[k]  or  map[k]
 		if id, ok := e.X.(*EIdent); ok {
 			if _, isG := fc.eng.Spec.Ghosts[id.Name]; isG {
@@ -739,7 +880,7 @@ func (fr *frame) havocItem(env *Env, item string, st *State) {
 	for _, t := range fr.resolveModItem(env, item) {
 		switch {
 		case t.all:
-			fc.havocAll(st)
+			fr.havocAllKeepFresh(st)
 		case t.ref == "":
 			st.comp[t.key] = fc.freshConst("hv_"+t.key, fc.compSort[t.key])
 		case t.mapKey != "":
